@@ -7,6 +7,7 @@ import itertools
 import json
 import keyword
 import os
+import re
 import shutil
 import subprocess
 import tempfile
@@ -14,11 +15,76 @@ import time
 import unicodedata
 from pathlib import Path
 
-from .. import e2e
+from .. import e2e, realcall
 from ..common import PY, Rng, hx, unhx
 from ..runner import Check
 
 NAMES3 = ["a", "b", "c"]
+ANY_CLASS = "AnyClassName"
+
+
+# ---------------------------------------------------------------- guarded access to the real functions
+def real_fn(ck: Check, camp, module: str, path: str, *args, **kwargs):
+    """The real callable `module.path` (path may be `Class.attr`), checked ONCE against the arguments the model was
+    written for. Gone, renamed or no longer taking these arguments: a broken correspondence of `camp` (the
+    failing-input search follows), never a crash of the check. Returns None then."""
+    what = f"{module}.{path}"
+    try:
+        obj = importlib.import_module(module)
+    except Exception as e:  # noqa: BLE001
+        ck.disagree(camp, {"real_call": what}, "importable", f"{type(e).__name__}: {e}")
+        return None
+    for part in path.split("."):
+        obj = realcall.resolve(ck, camp, obj, part, what)
+        if obj is None:
+            return None
+    if args or kwargs:
+        why = realcall.signature_accepts(obj, *args, **kwargs)
+        if why is not None:
+            ck.disagree(camp, {"real_call": what}, "the callee takes the arguments the model was transliterated from", why)
+            return None
+    return obj
+
+
+# ---------------------------------------------------------------- batching of model-driver calls
+# Every call of the model driver starts the compiled model once (~20 ms). The end-to-end checks of one case need
+# three to four dependent calls, so they are written as coroutines that `yield` their request lines and receive
+# the replies; `drive_all` runs many cases in lockstep with ONE driver call per round, `drive` runs a single case.
+def drive(ck: Check, gen):
+    try:
+        reqs = next(gen)
+        while True:
+            reqs = gen.send(ck.driver.run(reqs) if reqs else [])
+    except StopIteration as e:
+        return e.value
+
+
+def drive_all(ck: Check, gens) -> None:
+    live = []
+    for g in gens:
+        try:
+            live.append((g, next(g)))
+        except StopIteration:
+            pass
+    while live:
+        batch = [r for _, reqs in live for r in reqs]
+        replies = ck.driver.run(batch) if batch else []
+        nxt, at = [], 0
+        for g, reqs in live:
+            mine = replies[at: at + len(reqs)]
+            at += len(reqs)
+            try:
+                nxt.append((g, g.send(mine)))
+            except StopIteration:
+                pass
+        live = nxt
+
+
+def use_fast_scratch() -> None:
+    """scratch directories on tmpfs when there is one (removing a written package from the disk-backed /tmp costs
+    more than generating it); only a matter of speed"""
+    if tempfile.tempdir is None and os.path.isdir("/dev/shm") and os.access("/dev/shm", os.W_OK | os.X_OK):
+        tempfile.tempdir = "/dev/shm"
 
 
 # ---------------------------------------------------------------- line-protocol helpers
@@ -162,10 +228,12 @@ def pair_class(cur: tuple, ref: tuple) -> str:
 
 
 def campaign_relative(ck: Check, depth: int, n_random: int) -> None:
-    from datamodel_code_generator.parser.base import exact_import, relative
-
     camp = ck.campaign("mod.relative / mod.exact / mod.emitted vs parser.base.relative, exact_import (+ init dot)")
     t0 = time.time()
+    relative = real_fn(ck, camp, "datamodel_code_generator.parser.base", "relative", "a.b", "a.c.Cls")
+    exact_import = real_fn(ck, camp, "datamodel_code_generator.parser.base", "exact_import", ".", "a", "Cls")
+    if relative is None or exact_import is None:
+        return
     rng = ck.rng.fork("relative")
     pairs = [(c, r) for c in all_paths(NAMES3, depth) for r in all_paths(NAMES3, depth)]
     for _ in range(n_random):
@@ -248,10 +316,14 @@ def campaign_relative(ck: Check, depth: int, n_random: int) -> None:
 
 
 def campaign_module_path(ck: Check, n: int) -> None:
-    from datamodel_code_generator.model.base import get_module_name, get_module_path, sanitize_module_name
-
     camp = ck.campaign("mod.sanitize / mod.modpath vs model.base.sanitize_module_name, get_module_path, get_module_name")
     t0 = time.time()
+    mb = "datamodel_code_generator.model.base"
+    sanitize_module_name = real_fn(ck, camp, mb, "sanitize_module_name", "a", treat_dot_as_module=False)
+    get_module_path = real_fn(ck, camp, mb, "get_module_path", "a.B", Path("d/f.json"), treat_dot_as_module=False)
+    get_module_name = real_fn(ck, camp, mb, "get_module_name", "a.B", Path("d/f.json"), treat_dot_as_module=False)
+    if sanitize_module_name is None or get_module_path is None or get_module_name is None:
+        return
     rng = ck.rng.fork("modpath")
     u = unicode_classes()
     # ASCII, and representatives of every class on which "kept in the module name", "identifier character" and
@@ -321,22 +393,28 @@ def PAIRS(ps) -> str:
     return "(" + " ".join(f"({hx(a)} {hx(b)})" for a, b in ps) + ")"
 
 
-def model_aliases(ck: Check, jobs: list[tuple]) -> list:
-    """`mod.aliases` for (excl, classes, reqs) jobs -> list of names | "diverges" | "unmodelled" """
+def model_aliases_co(jobs: list[tuple]):
+    """`mod.aliases` for (excl, classes, reqs) jobs -> list of names | "diverges" | "unmodelled" (coroutine)"""
     out = []
-    for rep in ck.driver.run([f"mod.aliases {P(sorted(e))} {PAIRS(c)} {PAIRS(r)}" for e, c, r in jobs]):
+    for rep in (yield [f"mod.aliases {P(sorted(e))} {PAIRS(c)} {PAIRS(r)}" for e, c, r in jobs]):
         t = rep.split(" ")
         out.append([unhx(x) for x in t[1:]] if t[0] == "ok" else rep)
     return out
 
 
+def model_aliases(ck: Check, jobs: list[tuple]) -> list:
+    return drive(ck, model_aliases_co(jobs))
+
+
 def campaign_aliases(ck: Check, n: int) -> None:
     """Model/Modules.importNames (two loops over one scoped resolver) vs a real ModelResolver driven the way
     __change_from_import drives it: every class first, then every foreign reference"""
-    from datamodel_code_generator.reference import ModelResolver
-
     camp = ck.campaign("mod.aliases (Scope.add / importNames) vs reference.ModelResolver driven as __change_from_import does")
     t0 = time.time()
+    ModelResolver = real_fn(ck, camp, "datamodel_code_generator.reference", "ModelResolver", exclude_names=set())
+    if ModelResolver is None or real_fn(ck, camp, "datamodel_code_generator.reference", "ModelResolver.add", None, ["k"], "Name") is None \
+            or real_fn(ck, camp, "datamodel_code_generator.reference", "ModelResolver.join_path", ["k"]) is None:
+        return
     rng = ck.rng.fork("aliases")
     words = ["Status", "Job", "Step", "Shared", "a", "b", "jobs", "Status_1", "Status_2", "K1", "x", "class", "1a", "my-name", ""]
     jobs = []
@@ -353,10 +431,14 @@ def campaign_aliases(ck: Check, n: int) -> None:
     model = model_aliases(ck, [(e, [(ModelResolver.join_path([k]), c) for k, c in cl], [(ModelResolver.join_path(k), nm) for k, nm in rq]) for e, cl, rq in jobs])
     for (excl, classes, reqs), m in zip(jobs, model):
         camp.evaluations += 1
-        r = ModelResolver(exclude_names=set(excl))
-        for k, c in classes:
-            r.add([k], c)
-        impl = [r.add(k, nm).name for k, nm in reqs]
+        impl = None
+        with realcall.guard(ck, camp, "ModelResolver(exclude_names).add(path, name).name", {"classes": classes, "reqs": reqs}):
+            r = ModelResolver(exclude_names=set(excl))
+            for k, c in classes:
+                r.add([k], c)
+            impl = [r.add(k, nm).name for k, nm in reqs]
+        if impl is None:
+            continue
         clash = bool({nm for _, nm in reqs} & ({c for _, c in classes} | excl))
         camp.hit("asks_for_a_taken_name" if clash else "no_clash")
         camp.hit(f"requests:{min(len(reqs), 3)}{'+' if len(reqs) > 3 else ''}")
@@ -374,37 +456,57 @@ def campaign_aliases(ck: Check, n: int) -> None:
 _RECORDS: list = []
 
 
+_RECORDER_BROKEN: list = []
+
+
 def install_recorder() -> None:
     """Observe the real Parser.__change_from_import from outside: per call, the classes of the module, the excluded
-    names and every scoped_model_resolver.add(path, name) it makes with the name it got back."""
+    names and every scoped_model_resolver.add(path, name) it makes with the name it got back. The wrapper passes
+    whatever arguments it gets through; when the method is gone, or no longer has the parameters / attributes the
+    recording reads, that is noted in _RECORDER_BROKEN (a broken correspondence, reported by check_case) and the
+    real method runs unobserved."""
+    import inspect
+
     from datamodel_code_generator.parser import base as pb
 
-    orig = pb.Parser._Parser__change_from_import
+    orig = getattr(pb.Parser, "_Parser__change_from_import", None)
+    if orig is None:
+        if not _RECORDER_BROKEN:
+            _RECORDER_BROKEN.append("Parser.__change_from_import is gone")
+        return
     if getattr(orig, "_c12_recorder", False):
         return
 
-    def wrapper(self, models, imports, scoped_model_resolver, init):
-        res = scoped_model_resolver
-        rec = {"excl": sorted(res.exclude_names), "classes": [(res.join_path([m.path]), m.class_name) for m in models], "calls": []}
-        real_add = res.add
-
-        def add(path, original_name, **kw):
-            ref = real_add(path, original_name, **kw)
-            rec["calls"].append((res.join_path(path), original_name, ref.name, sorted(kw)))
-            return ref
-
-        res.add = add  # instance attribute: only this resolver, only during this call
+    def wrapper(self, *args, **kwargs):
+        rec = res = None
         try:
-            return orig(self, models, imports, scoped_model_resolver, init)
+            bound = inspect.signature(orig).bind(self, *args, **kwargs).arguments
+            models, res = bound["models"], bound["scoped_model_resolver"]
+            rec = {"excl": sorted(res.exclude_names), "classes": [(res.join_path([m.path]), m.class_name) for m in models], "calls": []}
+            real_add = res.add
+
+            def add(path, original_name, **kw):
+                ref = real_add(path, original_name, **kw)
+                rec["calls"].append((res.join_path(path), original_name, ref.name, sorted(kw)))
+                return ref
+
+            res.add = add  # instance attribute: only this resolver, only during this call
+        except (KeyError, TypeError, AttributeError) as e:
+            if not _RECORDER_BROKEN:
+                _RECORDER_BROKEN.append(f"recording Parser.__change_from_import: {type(e).__name__}: {e}")
+            rec = None
+        try:
+            return orig(self, *args, **kwargs)
         finally:
-            del res.add
-            _RECORDS.append(rec)
+            if rec is not None:
+                del res.add
+                _RECORDS.append(rec)
 
     wrapper._c12_recorder = True
     pb.Parser._Parser__change_from_import = wrapper
 
 
-def check_records(ck: Check, camp, case: dict, records: list) -> None:
+def check_records_co(ck: Check, camp, case: dict, records: list):
     """the names the real __change_from_import got for its imports vs Model/Modules.importNames on the same
     classes, excluded names and sequence of foreign references"""
     jobs, metas = [], []
@@ -420,7 +522,7 @@ def check_records(ck: Check, camp, case: dict, records: list) -> None:
             camp.hit("aliases:outside_hypothesis:duplicate_model_path")
         jobs.append((rec["excl"], rec["classes"], [(k, nm) for k, nm, _ in reqs]))
         metas.append([got for _, _, got in reqs])
-    for (excl, classes, reqs), got, m in zip(jobs, metas, model_aliases(ck, jobs) if jobs else []):
+    for (excl, classes, reqs), got, m in zip(jobs, metas, (yield from model_aliases_co(jobs)) if jobs else []):
         camp.hit("aliases:modules_compared")
         if m == "unmodelled":
             camp.hit("aliases:unmodelled_non_ascii")
@@ -673,13 +775,13 @@ def static_oracle(files: dict[str, str]) -> list[dict]:
                 # the compiler NFKC-normalises every identifier, the names in import statements included
                 fails.append({"check": "names_importable", "file": rel, **where,
                               "detail": f"component {c!r} ({uesc(c)}) can never be named by an import statement: Python looks for {uesc(nfkc(c))}"})
+        m, _ = file_module(rel)
+        by_module.setdefault(m, rel)  # the file is in the output whether or not it parses (what it defines is then unknown)
         try:
             trees[rel] = ast.parse(text)
         except SyntaxError as e:
-            fails.append({"check": "parses", "file": rel, "detail": f"SyntaxError: {e.msg} (line {e.lineno}: {(e.text or '').strip()[:80]})"})
+            fails.append({"check": "parses", "file": rel, "src_line": (e.text or "").strip(), "detail": f"SyntaxError: {e.msg} (line {e.lineno}: {(e.text or '').strip()[:80]})"})
             continue
-        m, _ = file_module(rel)
-        by_module.setdefault(m, rel)
     # (2) shadowing
     dirs = {tuple(rel.split("/")[:-1])[: k + 1] for rel in files for k in range(len(rel.split("/")) - 1)}
     for rel in files:
@@ -748,7 +850,7 @@ def static_oracle(files: dict[str, str]) -> list[dict]:
 
 
 IMPORT_SCRIPT = r"""
-import ast, importlib, json, os, sys, typing, unicodedata, warnings
+import ast, importlib, json, os, sys, traceback, typing, unicodedata, warnings
 warnings.simplefilter("ignore")
 root = sys.argv[1]
 sys.path.insert(0, root)
@@ -803,7 +905,7 @@ def describe(c, reg):
     return f"{key[0].split('.', 1)[-1] if '.' in key[0] else '<root>'}.{key[1]} (members {sorted(reg.get(key, []))})"
 
 for pkg, modules in jobs.items():
-    res, reach = {}, {}
+    res, reach, culprit = {}, {}, {}
     reg = registry_of(pkg)
     exp = expect.get(pkg, {"fields": [], "bases": []})
     for m in modules:
@@ -855,7 +957,15 @@ for pkg, modules in jobs.items():
                                                         "reached": got[0].__module__ if got else None, "target": sorted(base)})
         except BaseException as e:
             res[m] = f"{type(e).__name__}: {e}"[:300]
-    out[pkg] = {"modules": res, "reach": reach}
+            # the file of the package in which it was raised (a module also fails when a module it imports is broken)
+            top = os.path.join(root, pkg) + os.sep
+            names = [e.filename] if isinstance(e, SyntaxError) and e.filename else []
+            names += [fr.filename for fr in reversed(traceback.extract_tb(e.__traceback__))]
+            for fn in names:
+                if fn and os.path.abspath(fn).startswith(top):
+                    culprit[m] = os.path.relpath(os.path.abspath(fn), top).replace(os.sep, "/")
+                    break
+    out[pkg] = {"modules": res, "reach": reach, "culprit": culprit}
 print(json.dumps(out))
 """
 
@@ -952,7 +1062,7 @@ def import_packages(packages: dict[str, dict[str, str]], v1_shim: set[str], expe
         jobs[pkg] = sorted(mods)
     (root / "jobs.json").write_text(json.dumps({"jobs": jobs, "expect": expect or {}}))
     try:
-        proc = subprocess.run([PY, "-c", IMPORT_SCRIPT, str(root), str(root / "jobs.json")], capture_output=True, text=True, timeout=300)
+        proc = subprocess.run([PY, "-c", IMPORT_SCRIPT, str(root), str(root / "jobs.json")], capture_output=True, text=True, timeout=1200)
         if proc.returncode != 0:
             raise RuntimeError(proc.stderr[-600:])
         return json.loads(proc.stdout)
@@ -961,13 +1071,13 @@ def import_packages(packages: dict[str, dict[str, str]], v1_shim: set[str], expe
 
 
 # ---------------------------------------------------------------- end-to-end: model prediction and classification
-def model_prediction(ck: Check, case: dict, has_root: bool):
+def model_prediction_co(case: dict, has_root: bool):
     """file map and import lines the Lean model predicts for this case"""
     defs, bases, opts = case["defs"], case["bases"], case["opts"]
     mods = py_sorted_mods([mod_of(nm) for nm in defs] + ([()] if has_root else []))
     treat = bool(opts.get("treat_dot_as_module"))
     exact = bool(opts.get("use_exact_imports"))
-    rep_map, rep_as, rep_ck = ck.driver.run([f"mod.filemap {B(treat)} {M(mods)}", f"mod.assigned {M(mods)}", f"mod.checks {B(treat)} {M(mods)}"])
+    rep_map, rep_as, rep_ck, rep_plain = yield [f"mod.filemap {B(treat)} {M(mods)}", f"mod.assigned {M(mods)}", f"mod.checks {B(treat)} {M(mods)}", f"mod.filemap 0 {M(mods)}"]
     fmap = {}
     for tok in rep_map.split(" ")[1:]:
         k, v = tok.split("=")
@@ -986,11 +1096,14 @@ def model_prediction(ck: Check, case: dict, has_root: bool):
     edges = sorted({e for e in edges if e[0] != e[1]})
     reqs = [f"mod.emitted {P(c)} {B(assigned[c]['init'])} {B(exact)} {B(ib)} {P(r)} {hx(cls)}" for c, r, cls, ib in edges]
     preds: dict[tuple, list] = {}
-    for (c, r, cls, ib), rep in zip(edges, ck.driver.run(reqs)):
+    for (c, r, cls, ib), rep in zip(edges, (yield reqs)):
         t = rep.split(" ")
         line = (int(t[1]), unhx(t[2]), unhx(t[3]))
         preds.setdefault(c, []).append({"import": line, "ref": r, "cls": cls, "base": ib, "init": assigned[c]["init"], "exact": exact or ib})
-    return {"mods": mods, "fmap": fmap, "assigned": assigned, "checks": checks, "preds": preds}
+    pred = {"mods": mods, "fmap": fmap, "assigned": assigned, "checks": checks, "preds": preds}
+    if treat:
+        pred["fmap_plain"] = {unhx(t.split("=")[0]): (None if t.split("=")[1] == "-" else undot(unhx(t.split("=")[1]))) for t in rep_plain.split(" ")[1:]}
+    return pred
 
 
 def edge_mechanism(importer: tuple, e: dict) -> str:
@@ -1007,24 +1120,81 @@ def importable(c: str) -> bool:
     return c.isidentifier() and not keyword.iskeyword(c) and nfkc(c) == c
 
 
-def classify_tree(fail: dict, case: dict, files: dict[str, str]) -> str:
-    """mechanism of an oracle failure on an input file tree (no file-map model). The two recorded findings are
-    told by their triggers: a DIRECTORY name of the tree that is no importable identifier (directory names are
-    not sanitised), a file STEM that is a keyword (sanitize_module_name lets keywords through)."""
+def out_dir_names(c: str, treat_dot: bool) -> list[str]:
+    """what the passes over the result keys make of a directory name of the input tree: "-" -> "_", then every dot
+    but the last one -> "_" (with --treat-dot-as-module: the name is split at its dots)"""
+    c = c.replace("-", "_")
+    if treat_dot:
+        return c.split(".")
+    i = c.rfind(".")
+    return [c if i < 0 else c[:i].replace(".", "_") + c[i:]]
+
+
+_IMPORT_LINE = re.compile(r"^from\s+(\S+)\s+import\s+(.*)$")
+
+
+def classify_tree(fail: dict, case: dict, files: dict[str, str]) -> str | None:
+    """The two recorded findings that only input file trees meet, told by their triggers and by what they do:
+    * C12-dir-name — a DIRECTORY name of the tree that is no importable identifier: module paths carry the raw name.
+      It shows (a) as an output directory whose name is what the key normalisation makes of the raw name
+      (`v1.0`, an NFKC-unstable name), (b) as an import statement that does not parse because it spells the raw
+      name (`from .my-dir import pet`), (c) as an import statement naming the NFKC form of a raw name.
+    * C12-keyword-stem — a file STEM that is a keyword: the module file `class.py` and `from . import class`.
+    Anything else in such a tree (None) is classified like every other failure."""
+    treat = bool(case["opts"].get("treat_dot_as_module"))
     in_dirs = {c for rel in case["files"] for c in rel.split("/")[:-1]}
-    out_dirs = {c for rel in files for c in rel.split("/")[:-1]}
-    bad_dirs = {c for c in in_dirs | out_dirs if not importable(c)}
+    raw_bad = {c for c in in_dirs if not importable(c)}
+    out_expected = {x for c in in_dirs for x in out_dir_names(c, treat)}
     kw_stems = {c for rel in files for c in [rel.split("/")[-1][: -len(".py")]] if keyword.iskeyword(c)}
     if fail["check"] == "names_importable":
+        c = fail.get("component", "")
         if fail.get("is_dir"):
+            return "unsanitized_dir_name" if c in out_expected else "dir_name_not_normalised"
+        return "keyword_module_name" if keyword.iskeyword(c) else "module_stem_not_importable"
+    if fail["check"] == "parses":
+        m = _IMPORT_LINE.match(fail.get("src_line", ""))
+        if m:
+            words = set(re.split(r"[\s,.()]+", m.group(1) + " " + m.group(2)))
+            if words & kw_stems:
+                return "keyword_module_name"
+            if any(d in m.group(1) for d in raw_bad):
+                return "unsanitized_dir_name"
+        return None
+    if fail["check"] == "import_resolves":
+        unstable = {nfkc(d) for d in raw_bad if nfkc(d) != d}
+        m = _IMPORT_LINE.match(fail.get("line", ""))
+        comps = set(fail.get("target") or ()) | (set(m.group(1).split(".")) if m else set())
+        if comps & unstable:
             return "unsanitized_dir_name"
-        return "keyword_module_name" if keyword.iskeyword(fail.get("component", "")) else "module_stem_not_importable"
-    # consequences (a file that does not parse, an import that does not resolve) in a package that has such a name
-    if kw_stems:
-        return "keyword_module_name"
-    if bad_dirs:
-        return "unsanitized_dir_name"
+    return None
+
+
+def shadow_mechanism(shadowed: tuple, pred: dict) -> str:
+    """why `x.py` and `x/` are both written, on the module paths of an input tree (raw directory names, sanitised
+    stems): the gap filler did not reach a module that has modules below it (C12-gap), or a file stem and a
+    directory name that differ as written fall on one name once the keys are normalised (`sub-dir.json`, whose
+    module is `sub_dir`, next to the directory `sub-dir/`)"""
+    norm = lambda m: tuple(c.replace("-", "_") for c in m)
+    plain = [r for r in pred["mods"] if norm(r) == shadowed and not pred["assigned"].get(r, {}).get("init")]
+    procs = list(pred["assigned"])
+    if any(q[: len(r)] == r and len(q) > len(r) for r in plain for q in procs):
+        return "gap_not_filled"
+    if any(norm(q)[: len(shadowed)] == shadowed and len(q) > len(shadowed) for q in procs):
+        return "stem_and_directory_fall_on_one_name"
     return "other"
+
+
+def case_edges(case: dict, pred: dict | None) -> list[tuple]:
+    """the cross-module references of a case: (importer module, importee module, referenced definition, is base class)"""
+    if "defs" in case:
+        out = []
+        for nm, refs in case["defs"].items():
+            out += [(mod_of(nm), mod_of(r), r, False) for r in refs]
+            if nm in case["bases"]:
+                out.append((mod_of(nm), mod_of(case["bases"][nm]), case["bases"][nm], True))
+        return [e for e in out if e[0] != e[1]]
+    norm = lambda m: tuple(c.replace("-", "_") for c in m)  # failures speak of output paths
+    return [(norm(a), norm(b), t, ib) for a, b, t, ib in pred["edges"]] if pred else []
 
 
 def classify(fail: dict, case: dict, pred: dict | None, files: dict[str, str]) -> dict:
@@ -1035,14 +1205,27 @@ def classify(fail: dict, case: dict, pred: dict | None, files: dict[str, str]) -
     if pred is None and case["opts"].get("collapse_root_models") and case.get("roots") and fail["check"] in ("use_is_bound", "use_reaches_definition"):
         return {**base, "mechanism": "collapse_root_model_import_lost"}
     if base["input_kind"] == "file_tree":
-        return {**base, "mechanism": classify_tree(fail, case, files)}
-    if fail["check"] in ("names_importable", "parses") or pred is None:
+        mech = classify_tree(fail, case, files)
+        if mech is not None or pred is None:
+            return {**base, "mechanism": mech or "other"}
+        # else: like every other failure, on the prediction of the file-map model for this tree
+    elif fail["check"] in ("names_importable", "parses") or pred is None:
         if any(keyword.iskeyword(c) for c in comps):
             return {**base, "mechanism": "keyword_module_name"}
         return {**base, "mechanism": "other"}
+    if fail["check"] in ("names_importable", "parses"):
+        return {**base, "mechanism": "other"}
     if fail["check"] == "no_shadowing":
+        if base["input_kind"] == "file_tree":
+            return {**base, "mechanism": shadow_mechanism(tuple(fail.get("importer", ())), pred)}
         return {**base, "mechanism": "gap_not_filled" if pred["checks"].get("covered") == "0" else "other"}
     importer = tuple(fail.get("importer", ()))
+    if base["input_kind"] == "file_tree":
+        from . import c12_trees
+
+        # two raw names of the tree on one output name: the module of that name is shadowed, or merged with another one
+        if c12_trees.at_clash(pred, importer, fail.get("target")):
+            return {**base, "mechanism": "stem_and_directory_fall_on_one_name"}
     # a body copied over an __init__ by __postprocess_result_modules (the importing file itself, or the
     # package file the import designates)?
     if case["opts"].get("treat_dot_as_module"):
@@ -1057,19 +1240,21 @@ def classify(fail: dict, case: dict, pred: dict | None, files: dict[str, str]) -
         return {**base, "mechanism": "collapse_root_model_import_lost"}
     if fail["check"] == "use_is_bound" and case["opts"].get("use_exact_imports"):
         # one foreign class used as a base and as a member type in the same module: two aliases for one import
-        as_base = {(mod_of(nm), b) for nm, b in case["bases"].items()}
-        as_member = {(mod_of(nm), r) for nm, refs in case["defs"].items() for r in refs}
+        edges = case_edges(case, pred)
+        as_base = {(m, t) for m, _, t, ib in edges if ib}
+        as_member = {(m, t) for m, _, t, ib in edges if not ib}
         if any(m == importer for m, _ in as_base & as_member):
             return {**base, "mechanism": "alias_clash_same_import"}
     if fail.get("attr_shadow"):
         return {**base, "mechanism": "init_name_shadows_submodule"}
-    if fail["check"] == "use_reaches_definition" and importer in relative_key_collisions(case):
+    if fail["check"] == "use_reaches_definition" and importer in relative_key_collisions(case, pred):
         return {**base, "mechanism": "relative_key_collision"}
     mechs = set()
     for e in pred["preds"].get(importer, []):
         lvl, pkg, name = e["import"]
         line = fail.get("line", "")
-        if not line or (line.startswith(f"from {'.' * lvl}{pkg} import ") and name in line):
+        wild = lambda x: re.escape(x).replace(ANY_CLASS, r"\w+")  # the name of a class that was written nowhere is not known
+        if not line or re.match(rf"from {wild('.' * lvl + pkg)} import .*\b{wild(name)}\b", line):
             mechs.add(edge_mechanism(importer, e))
     mechs.discard("regular_pair")
     if len(mechs) >= 1:
@@ -1121,12 +1306,27 @@ def run_tree(case: dict) -> e2e.Result:
 
 
 def check_case(ck: Check, camp, case: dict, pending: list, correspond: bool = True) -> None:
-    """static oracles + model correspondence for one case; queues the package for the import oracle"""
+    drive(ck, check_case_co(ck, camp, case, pending, correspond))
+
+
+def check_cases(ck: Check, camp, cases: list, pending: list, correspond: bool = True, chunk: int = 48) -> None:
+    """many cases, the model-driver calls of each chunk batched"""
+    for i in range(0, len(cases), chunk):
+        drive_all(ck, [check_case_co(ck, camp, c, pending, correspond) for c in cases[i: i + chunk]])
+
+
+def check_case_co(ck: Check, camp, case: dict, pending: list, correspond: bool = True):
+    """static oracles + model correspondence for one case; queues the package for the import oracle
+    (coroutine: yields model-driver requests, see `drive`)"""
     camp.evaluations += 1
     res = observe(case)
     records = list(_RECORDS)
+    if _RECORDER_BROKEN and not getattr(ck, "_c12_recorder_reported", False):
+        ck._c12_recorder_reported = True
+        ck.disagree(camp, {"real_call": "Parser.__change_from_import(models, imports, scoped_model_resolver, init)"},
+                    "the method exists with the parameters the model of the import names was transliterated from", _RECORDER_BROKEN[0])
     if correspond and records:
-        check_records(ck, camp, case, records)
+        yield from check_records_co(ck, camp, case, records)
     for k in case["opts"]:
         camp.hit(f"opt:{k}")
     camp.hit(f"kind:{case['model']}")
@@ -1142,11 +1342,25 @@ def check_case(ck: Check, camp, case: dict, pending: list, correspond: bool = Tr
     pred = None
     if "defs" in case and correspond:
         has_root = True  # the root schema always yields `Model` (removed again only after the file map is built)
-        pred = model_prediction(ck, case, has_root)
-        if case["opts"].get("treat_dot_as_module"):
-            plain = ck.driver.run([f"mod.filemap 0 {M(pred['mods'])}"])[0]
-            pred["fmap_plain"] = {unhx(t.split("=")[0]): (None if t.split("=")[1] == "-" else undot(unhx(t.split("=")[1]))) for t in plain.split(" ")[1:]}
-    if pred is not None and case.get("roots") and case["opts"].get("collapse_root_models"):
+        pred = yield from model_prediction_co(case, has_root)
+    if "files" in case and correspond:
+        from . import c12_trees
+
+        pred, why = yield from c12_trees.tree_prediction_co(case)
+        if pred is None:
+            camp.unmodelled += 1
+            camp.hit(f"tree_unmodelled:{why}")
+        else:
+            yield from c12_trees.tree_correspondence_co(ck, camp, case, files, pred)
+            camp.hit("tree:covered" if pred["checks"]["covered"] == "1" else "tree:not_covered")
+            camp.hit("tree:modelled")
+            for cur, ref, _, ib in pred["edges"]:
+                camp.hit(f"tree_pair:{pair_class(cur, ref)}:{'init' if pred['assigned'][cur]['init'] else 'plain'}:{'exact' if pred['exact'] or ib else 'rel'}")
+            if any("-" in c for m in pred["mods"] for c in m):
+                camp.hit("tree:hyphenated_module_path")
+                if any(a["init"] and any("-" in c for c in m) for m, a in pred["assigned"].items()):
+                    camp.hit("tree:package_module_below_hyphenated_directory")
+    elif pred is not None and case.get("roots") and case["opts"].get("collapse_root_models"):
         camp.unmodelled += 1  # collapsed root models change which modules have models: oracle only
         camp.hit("collapsed_root_models")
     elif pred is not None:
@@ -1205,11 +1419,16 @@ def copied_init_involved(case: dict, pred: dict | None, files: dict[str, str], i
     mods = {importer}
     if item.get("reached"):
         mods.add(undot(item["reached"].split(".", 1)[1] if "." in item["reached"] else ""))
-    doc = build_doc(case["defs"], case["bases"], case.get("roots"))["definitions"]
-    for nm, sch in doc.items():
-        b = sch["allOf"][1] if "allOf" in sch else sch
-        if _schema_props(b) == item.get("target"):
-            mods.add(mod_of(nm))
+    if "defs" in case:
+        doc = build_doc(case["defs"], case["bases"], case.get("roots"))["definitions"]
+        for nm, sch in doc.items():
+            b = sch["allOf"][1] if "allOf" in sch else sch
+            if _schema_props(b) == item.get("target"):
+                mods.add(mod_of(nm))
+    else:
+        for m in pred.get("models", []):
+            if m["marker"] and m["marker"] in (item.get("target") or []):
+                mods.add(tuple(c.replace("-", "_") for c in m["mod"]))
     for mod in mods:
         r = "/".join((*mod, "__init__.py"))
         if mod and r in pred["fmap"] and pred["fmap_plain"].get(r) != pred["fmap"][r]:
@@ -1217,23 +1436,35 @@ def copied_init_involved(case: dict, pred: dict | None, files: dict[str, str], i
     return False
 
 
-def relative_key_collisions(case: dict) -> set[tuple]:
+def relative_key_collisions(case: dict, pred: dict | None = None) -> set[tuple]:
     """Trigger of the recorded finding C12-relkey-collision, stated on the input: importers m that refer to
     classes of BOTH m + s (a module below the package m) and m[:-1] + s (the like-named module beside m).
     `relative(m, ·)` answers both with one and the same (from, import) pair — the pair is the key under which
     the scoped resolver hands out the import's name, so the two imports share one name."""
-    if "defs" not in case:
-        return set()
     targets: dict[tuple, set[tuple]] = {}
-    for nm, refs in case["defs"].items():
-        for r in list(refs) + ([case["bases"][nm]] if nm in case["bases"] else []):
-            if mod_of(r) != mod_of(nm):
-                targets.setdefault(mod_of(nm), set()).add(mod_of(r))
+    for m, t, _, _ in case_edges(case, pred):
+        targets.setdefault(tuple(m), set()).add(tuple(t))
     out = set()
     for m, ts in targets.items():
         if m and any(t[: len(m)] == m and len(t) > len(m) and (m[:-1] + t[len(m):]) in ts for t in ts):
             out.add(m)
     return out
+
+
+def exact_key_shared(case: dict, pred: dict | None, importer: tuple) -> bool:
+    """Trigger of the recorded finding C12-exact-key-shared, stated on the input and the class names as written:
+    under --use-exact-imports a module that uses (as member types) TWO OR MORE classes of one foreign module T and a
+    class of another foreign module U whose name is the name of one of those. The scoped resolver hands out the
+    import names under the key `relative()` gives — the pair (from, module), taken BEFORE exact_import turns it into
+    (from.module, Class) — so all classes of T share one key: the second class re-names the key's entry and frees
+    the first class's name, which the import from U then takes un-aliased."""
+    if pred is None or not case["opts"].get("use_exact_imports"):
+        return False
+    uses: dict[tuple, set] = {}
+    for e in pred["preds"].get(tuple(importer), []):
+        if not e["base"]:
+            uses.setdefault(tuple(e["ref"]), set()).add(e["cls"])
+    return any(len(a) >= 2 and any(u != t and (b & a) for u, b in uses.items()) for t, a in uses.items())
 
 
 def flush_imports(ck: Check, camp, pending: list) -> None:
@@ -1256,17 +1487,20 @@ def flush_imports(ck: Check, camp, pending: list) -> None:
         if exp["skipped"]:
             camp.hit("reach_skipped:ambiguous_or_root_model", exp["skipped"])
         r = results.get(f"pkg{i}", {"modules": {}, "reach": {}})
+        culprit = r.get("culprit", {})
         errs = {m: e for m, e in r["modules"].items() if e}
         circ = {m for m, e in errs.items() if "partially initialized module" in e or "circular import" in e}
         if circ:  # an ordering problem between modules that import each other's names (C02), not a resolution problem
             camp.hit("circular_import_not_C12", len(circ))
             errs = {m: e for m, e in errs.items() if m not in circ}
         def mechs_of(module: str) -> list[str]:
-            """mechanisms of the static failures of that module's own file; of the whole package when it has none
-            (a module also fails to import when a module it imports is broken)"""
+            """mechanisms of the static failures of the file in which the exception was raised, else of that module's
+            own file; of the whole package when those have none (a module also fails to import when a module it
+            imports is broken)"""
             path = undot(module.split(".", 1)[1] if "." in module else "")
+            at = sorted({mc for f, mc in mechs if f == culprit.get(module)})
             own = sorted({mc for f, mc in mechs if f.endswith(".py") and file_module(f)[0] == path})
-            return own or sorted({mc for _, mc in mechs})
+            return at or own or sorted({mc for _, mc in mechs})
 
         if errs:
             m, e = sorted(errs.items())[0]
@@ -1279,10 +1513,12 @@ def flush_imports(ck: Check, camp, pending: list) -> None:
         for m, items in sorted(r["reach"].items()):
             strip = lambda mod: undot(mod.split(".", 1)[1] if "." in mod else "")
             inherited = [x for x in mechs_of(m) if x in REACH_INHERITS]
-            if strip(m) in relative_key_collisions(case):
+            if strip(m) in relative_key_collisions(case, pred):
                 inherited.append("relative_key_collision")
             if copied_init_involved(case, pred, files, strip(m), items[0]):
                 inherited.append("init_body_copied")
+            if exact_key_shared(case, pred, strip(m)):
+                inherited.append("exact_import_key_shared")
             mech = inherited[0] if inherited else "wrong_class_reached"
             camp.hit(f"reach_failed:{mech}")
             ck.fail({"oracle": "use_reaches_target", "input_kind": kind, "mechanism": mech}, case,
@@ -1436,24 +1672,17 @@ def campaign_e2e(ck: Check, n: int, n_tree: int, depth: int, n_clash: int = 0) -
     t0 = time.time()
     rng = ck.rng.fork("e2e")
     pending: list = []
-    for case in CORPUS:
-        check_case(ck, camp, case, pending)
-    for _ in range(n):
-        check_case(ck, camp, gen_case(rng, depth), pending)
+    check_cases(ck, camp, list(CORPUS) + [gen_case(rng, depth) for _ in range(n)], pending)
     # the family "one short class name in several modules, referred to across modules, in every definition order"
     rng_c = ck.rng.fork("clash")
-    for _ in range(n_clash):
-        camp.hit("family:same_short_name")
-        check_case(ck, camp, gen_clash_case(rng_c), pending)
+    camp.hit("family:same_short_name", n_clash)
+    check_cases(ck, camp, [gen_clash_case(rng_c) for _ in range(n_clash)], pending)
     flush_imports(ck, camp, pending)
     camp.wall_s = time.time() - t0
     camp2 = ck.campaign("e2e: input file trees (several files, references by path); oracles (1)-(4), no file-map model")
     t0 = time.time()
     rng = ck.rng.fork("tree")
-    for case in TREE_CORPUS:
-        check_case(ck, camp2, case, pending)
-    for _ in range(n_tree):
-        check_case(ck, camp2, gen_tree(rng), pending)
+    check_cases(ck, camp2, list(TREE_CORPUS) + [gen_tree(rng) for _ in range(n_tree)], pending)
     flush_imports(ck, camp2, pending)
     camp2.wall_s = time.time() - t0
 
@@ -1490,13 +1719,15 @@ def search_same_short_name(ck: Check) -> None:
     t0 = time.time()
     pending: list = []
     budget = 90 if ck.tier == "quick" else 600
-    for case in clash_sweep():
-        check_case(ck, camp, case, pending, correspond=True)
-        if len(pending) >= 96:
-            flush_imports(ck, camp, pending)
-            if ck.failures or time.time() - t0 > budget:
-                break
-    flush_imports(ck, camp, pending)
+    sweep = clash_sweep()
+    while True:
+        chunk = list(itertools.islice(sweep, 96))
+        if not chunk:
+            break
+        check_cases(ck, camp, chunk, pending, correspond=True)
+        flush_imports(ck, camp, pending)
+        if ck.failures or time.time() - t0 > budget:
+            break
     camp.wall_s = time.time() - t0
 
 
@@ -1536,13 +1767,16 @@ def search_module_names(ck: Check) -> None:
 
 
 def known_findings(ck: Check) -> None:
+    probes = []
     for f in ck.findings:
         probe = Check(ck.prop, ck.tier)
         probe.findings = []
         probe.driver = ck.driver
         camp = probe.campaign("witness")
         pending: list = []
-        check_case(probe, camp, f["witness"], pending, correspond=True)
+        probes.append((f, probe, camp, pending))
+    drive_all(ck, [check_case_co(probe, camp, f["witness"], pending, True) for f, probe, camp, pending in probes])
+    for f, probe, camp, pending in probes:
         flush_imports(probe, camp, pending)
         want = f.get("match", {}).get("mechanism")
         hit = [x for x in probe.failures if want is None or x.classification.get("mechanism") in (want if isinstance(want, list) else [want])]
@@ -1552,10 +1786,13 @@ def known_findings(ck: Check) -> None:
 
 def run(ck: Check) -> None:
     quick = ck.tier == "quick"
+    use_fast_scratch()
     ck.prove()
     ck.assumptions += [
         "Python's relative-import rule is modelled by Dcg/Py/Import.lean (validated in this run against importlib.util.resolve_name and real imports)",
-        "module paths of dotted definition names consist of identifiers (FieldNameResolver.get_valid_name, property C07); directory names of input trees are outside the file-map model (oracle only)",
+        "module paths of dotted definition names consist of identifiers (FieldNameResolver.get_valid_name, property C07); module paths of input file trees carry RAW directory names and sanitised stems (Model/Modules.getModulePath, Model/ModulesNorm.resultsFinal); trees with a '.' in a directory name, or in a stem under --treat-dot-as-module, are outside the file-map model (oracle only, counted as unmodelled)",
+        "renaming inside a module: WHICH class is renamed and to WHAT is taken from the real run (the scoped resolver, property C06); the model states what a rename does to the name, the class name and the module path (setClassName), for every choice",
+        "models of an input tree are told apart by a member of their own (m<k>): which file holds which model is read from the written text, line by line, also for files that do not parse",
         "the order of module paths is the one Python's sorted(key=(len, path), reverse=True) yields (the harness sorts; the theorems only use deepest-first)",
         "the condition of the package-file extra dot is modelled on name lists (importer path is a prefix of the importee path); the code tests it on dotted strings with a trailing '.', which is the same for names without dots",
         "names of imports: the scoped resolver is modelled for the calls __change_from_import makes (add(path, name) with default flags; Model/Modules.Scope.add, compared with a real ModelResolver and with the recorded calls of every generated module); get_valid_field_name is a parameter of the theorem (identity on the class names met); the `module.Class` spelling of each use and the later passes (__collapse_root_models, __change_imported_model_name) are checked by oracle (5) only",
@@ -1567,11 +1804,16 @@ def run(ck: Check) -> None:
     campaign_module_path(ck, 400 if quick else 4000)
     campaign_aliases(ck, 400 if quick else 4000)
     campaign_e2e(ck, 200 if quick else 3000, 30 if quick else 400, 3 if quick else 4, n_clash=120 if quick else 1500)
-    ck.search_hooks += [search_from_disagreements, search_module_names, search_same_short_name]
+    from . import c12_trees
+
+    c12_trees.campaign_setter(ck, 400 if quick else 4000)
+    c12_trees.campaign_rich_trees(ck, 150 if quick else 2500)
+    ck.search_hooks += [search_from_disagreements, c12_trees.search_rich_trees, search_module_names, search_same_short_name]
     known_findings(ck)
 
 
 def replay(ck: Check, path: str) -> int:
+    use_fast_scratch()
     data = json.loads(open(path).read())
     case = data.get("input") or {}
     camp = ck.campaign("replay")
